@@ -16,6 +16,8 @@ pub struct Vector2 { pub x: F, pub y: F }
 impl Vector2 {
     #[verifier::external_body]
     pub fn norm_squared(&self) -> (r: F) ensures r@ == self.x@ * self.x@ + self.y@ * self.y@ { unimplemented!() }
+    #[verifier::external_body]
+    pub fn norm(&self) -> (r: F) ensures r@ == sqrt_r(self.x@ * self.x@ + self.y@ * self.y@) { unimplemented!() }
 }
 /// nalgebra::distance(&p, &q) = sqrt(|p-q|^2)
 #[verifier::external_body]
